@@ -433,6 +433,9 @@ func (w *c19World) Run(c *kernel.RunCtx) {
 	c.Begin("scribble")
 	seeded := scribbleMode{on: true, kinds: uint32(c.U64n(1 << uint(evKinds))), fields: uint32(1 + c.Choose(31)), style: c.Choose(4)}
 	nAttach := 1 + c.Choose(3)
+	if c.RunIdx%5 == 2 {
+		nAttach = 9 + c.RunIdx%4 // many functions on every attachment point
+	}
 	resumeAt := c.Choose(1 << 16)
 	c19SharedEngine = nil
 	if c.Bool(1, 2) {
@@ -654,6 +657,23 @@ func checkProgram(c *kernel.RunCtx, p *program, seeded scribbleMode, nAttach int
 			h.r = &recorder{max: maxEvents}
 		}
 		c.Count("probe.option_value_applied_twice", 1)
+	}
+	// WithDebugger given twice in one call (a scribbler, then a recorder): whatever the library does with the first one,
+	// the second one must see the normal history and the outcome must be the normal one
+	if len(rec.events) < maxEvents && c.RunIdx%2 == 0 {
+		first := &recorder{mode: scribbleMode{on: true, all: true}}
+		second := &recorder{max: maxEvents}
+		c.Exec()
+		o := execProgramOn(c19Engine(), p, second, interpreter.WithDebugger(first))
+		if !o0.same(o) {
+			c.Fail("verdict", site, "with WithDebugger given twice (scribbler, then recorder) the outcome %s became %s (%s flags %x unlock %x lock %x)", o0, o, p.src, uint32(p.flags), p.unlock, p.lock)
+			return
+		}
+		if dd := diffHistories(rec.events, second.events); dd != "" || len(rec.events) != len(second.events) {
+			c.Fail("isolation", site, "WithDebugger given twice (scribbler, then recorder): the recorder saw %d callbacks, alone it sees %d: %s (%s flags %x unlock %x lock %x)", len(second.events), len(rec.events), dd, p.src, uint32(p.flags), p.unlock, p.lock)
+			return
+		}
+		c.Count("probe.debugger_option_given_twice", 1)
 	}
 	// late attachment: a debug.NewDebugger that has nothing but one BeforeExecute function when Execute starts; that
 	// function attaches everything else. From then on it must see what the direct recording saw.
